@@ -20,6 +20,7 @@ along with evo.  If not, see <http://www.gnu.org/licenses/>.
 
 import json
 import logging
+import os
 import typing
 from pathlib import Path
 
@@ -83,9 +84,21 @@ def merge_dicts(first: dict, second: dict, soft: bool = False) -> dict:
     return first
 
 
+def write_atomically(path: Path, text: str) -> None:
+    """
+    Writes to a temporary file that then replaces the target file,
+    so that the target is never observed (or left behind) partially written.
+    """
+    path = Path(path)
+    tmp_path = path.with_name("{}.{}.tmp".format(path.name, os.getpid()))
+    with open(tmp_path, 'w') as tmp_file:
+        tmp_file.write(text)
+    os.replace(tmp_path, path)
+
+
 def write_to_json_file(json_path: Path, dictionary: dict) -> None:
-    with open(json_path, 'w') as json_file:
-        json_file.write(json.dumps(dictionary, indent=4, sort_keys=True))
+    write_atomically(json_path,
+                     json.dumps(dictionary, indent=4, sort_keys=True))
 
 
 def reset(destination: Path = DEFAULT_PATH,
@@ -108,10 +121,10 @@ def initialize_if_needed() -> None:
     (or if it was deleted).
     """
     if not USER_ASSETS_PATH.exists():
-        USER_ASSETS_PATH.mkdir()
+        USER_ASSETS_PATH.mkdir(exist_ok=True)
 
     if not USER_ASSETS_VERSION_PATH.exists():
-        open(USER_ASSETS_VERSION_PATH, 'w').write(__version__)
+        write_atomically(USER_ASSETS_VERSION_PATH, __version__)
 
     if not DEFAULT_PATH.exists():
         try:
@@ -136,7 +149,7 @@ def update_if_outdated() -> None:
     updated_settings = merge_dicts(old_settings, DEFAULT_SETTINGS_DICT,
                                    soft=True)
     write_to_json_file(DEFAULT_PATH, updated_settings)
-    open(USER_ASSETS_VERSION_PATH, 'w').write(__version__)
+    write_atomically(USER_ASSETS_VERSION_PATH, __version__)
     print("{}Updated outdated {}{}".format(Fore.LIGHTYELLOW_EX, DEFAULT_PATH,
                                            Fore.RESET))
 
